@@ -18,8 +18,8 @@ RULE = (
     "enum-1d: EVERY slice(start,stop,step) with start,stop in {None,-5..5}, step in {None,1,-1,2,-2,3} on a length-4 array under all "
     "8 chunkings, assigned a scalar, a full-size NumPy value, a full-size dask value and a size-1 array; enum-2d: 11 representative per-axis "
     "indices (ints, slices of both step signs, integer list, boolean list) in all pairs on a 3x3 array under all 16 chunkings "
-    "x {scalar, full-shape value, broadcast row/column}; random: arrays of 0-3 dims (sides 0..5, random chunkings, ~10% with "
-    "explicit zero-size chunks), 1-2 consecutive assignments whose index combines slices (any step sign), ints, Ellipsis and "
+    "x {scalar, full-shape value, broadcast row/column}; random: arrays of 0-3 dims (sides 1..5; zero-length axes in <=10% and "
+    "explicit zero-size chunks in ~10% of the cases, as separate strata), 1-2 consecutive assignments whose index combines slices (any step sign), ints, Ellipsis and "
     "at most one 1-d integer indexer (list/NumPy/dask; duplicates, negative, empty) or 1-d boolean mask (list/NumPy/dask), or "
     "is one full-shape dask mask; values: Python scalars, NumPy arrays and dask arrays (random chunking) of any shape "
     "broadcastable to the selection (dropped leading dims, size-1 dims, extra leading size-1 dims), values derived from the "
@@ -169,7 +169,7 @@ def _check(case):
         # input classes of the findings listed for C21 (stable flags for known_findings matching)
         sig["empty_selection_nonscalar_value"] = 0 in sel_shape and bool(vshape) and max(vshape) != 1
         bools_da = sig["fancy"] == "bools-da" and not full_dask_mask
-        sig["bools_da_value_ndim_differs"] = bools_da and len(vshape) > 0 and len(vshape) != len(sel_shape)
+        sig["bools_da_value_fewer_dims"] = bools_da and 0 < len(vshape) < len(sel_shape)
         sig["bools_da_size1_value"] = bools_da and bools_aligned_value_dim(items, len(arr["shape"]), sel_shape, vshape) == 1
         sig["int_index_value_ndim_exceeds_selection"] = any(it["k"] == "int" for it in items) and len(vshape) > len(sel_shape)
         sig["mask_chunks_differ"] = any(it["k"] == "mask" and [list(c) for c in it["chunks"]] != [list(c) for c in arr["chunks"]] for it in items) or (
@@ -262,6 +262,8 @@ def classes(case):
     yield f"steps-{len(case['steps'])}"
     if A.has_zero_chunk(arr["chunks"]):
         yield "zero-size-chunk"
+    if 0 in arr["shape"]:
+        yield "zero-length-axis"
     for step in case["steps"]:
         yield "value-" + step["value"]["kind"]
         vs = step["value"]
@@ -430,6 +432,10 @@ def step_st(draw, arr):
                 v = it["v"] + shape[i] if it["v"] < 0 else it["v"]
                 items[i] = {"k": "slice", "v": [v, v + 1, None]}
     items = C.add_structure(draw, items, allow_none=False)
+    if C.advanced_nonadjacent(items):
+        # add_structure put a zero-width Ellipsis between the integer and the array indexer (all axes are indexed explicitly);
+        # NumPy applies its transposition rule even then (see ASSUMPTIONS): drop it, the index means the same without it
+        items = [it for it in items if it["k"] != "ellipsis"]
     bare = len(items) == 1 and draw(st.booleans())
     sel = selection_shape(arr, items, bare)
     if sel is None:
@@ -445,7 +451,7 @@ def step_st(draw, arr):
 
 @st.composite
 def random_case(draw):
-    arr = draw(C.array_st(min_dims=0, max_dims=3, min_side=draw(st.sampled_from([0, 2, 2, 3])), max_side=5, dtypes=("f8", "f8", "i8"), fills=("arange", "small")))
+    arr = draw(C.array_st(min_dims=0, max_dims=3, min_side=draw(st.sampled_from([0, 1, 1, 2, 2, 2, 2, 3, 3, 3])), max_side=5, dtypes=("f8", "f8", "i8"), fills=("arange", "small")))
     nsteps = draw(st.sampled_from([1, 1, 1, 2]))
     return {"array": arr, "steps": [draw(step_st(arr)) for _ in range(nsteps)]}
 
